@@ -40,6 +40,7 @@ func c04(c *Ctx) {
 	c04fx(c)
 	c04engine(c)
 	c04serverDeadline(c)
+	c04finalStatus(c)
 }
 
 func c04rest(c *Ctx) {
